@@ -67,7 +67,7 @@ theorem chunk_end_verified (H : HashFn) (D : Decomp) (c : Ctx) (k : Nat) (ch : C
             exact validateChunk_pos H { c with data := [], dc := c.dc ++ plain } ch hv1 hv2
 
 /-- for unit-decoded chunks: whatever any sequence of reads returns is verified content (C15) -/
-theorem reads_return_verified (H : HashFn) (D : Decomp) (f : Bytes) (h : Hdr) (hz : h.compType ≠ 0) (ns : List Nat) :
+theorem reads_return_verified (H : HashFn) (D : Decomp) (f : Bytes) (h : Hdr) (hz : h.compType ≠ 0) (ns : List C15.Call) :
     ∃ G : List Bytes, (∀ p ∈ G, Good H D h p) ∧
       ∃ rest, G.flatten = (C15.readCalls H D f (openCtx h) ns).1 ++ rest :=
   C15.C15 H D f h hz ns
